@@ -529,6 +529,10 @@ class Interp(object):
                 if isinstance(o, Obj):
                     cls = s2.cls[o.oid]
                     c, setter = self.m.lookup(cls, t.attr, 'setters')
+                    if setter is not None and (c, t.attr + '=') in self.summaries:
+                        for (s3, r) in self.summaries[(c, t.attr + '=')](self, s2, o, [v], {}, frame, t):
+                            out.append((s3, e2 if s3 is s2 else dict(e2), ('raise', r) if isinstance(r, Raised) else None))
+                        continue
                     if setter is not None:
                         for (s3, r) in self.run_fn(s2, c, self.m.classes[c].module, setter, o, [v], {}, frame.depth + 1):
                             e3 = e2 if s3 is s2 else dict(e2)
